@@ -12,6 +12,13 @@ NOTE = ("Trusted: Coq 8.16.1 kernel (full .vo build, vm_compute for finite sweep
         "regenerated from /repo on every run (defs.jq parse trees, native registry). Third-party crates are modelled by contract.")
 
 CLAIMED = {
+    "C16": ("Theorems about the loader model (Cli/Modules.v): every file is loaded at most once whatever the routes; the open stack is "
+            "restored; a file importing itself is reported as circular. Tie/oracle: random acyclic module graphs on disk (diamonds, "
+            "clashes, include/import mix, data imports, command-line variables) run by the binary against their textually inlined "
+            "single program; graphs with cycles against the Coq loader (circular vs loaded); 27 look-up cases on real directories "
+            "(search metadata relative to the importing file before -L, ~, extension only when none is given, absolute paths refused, "
+            "scoping of imports, loader's definitions and call-site variables invisible). Partial: inline_equiv is an oracle, not a theorem.",
+            "7.16", "Coq proof (loader) + binary-vs-inlined oracle + model correspondence on cyclic graphs (partial)"),
     "C15": ("Theorems (operator layer, Parse/PrecClimb.v mirrors prec_climb.rs and Term::climb): for chains of any length the tree reads "
             "back as exactly the input sequence; precedence levels and associativities equal the manual's table; all 625 ordered pairs and "
             "all 15625 ordered triples of operators (bindings included) group as the table implies (exhaustive, computed in the kernel). "
